@@ -24,10 +24,19 @@ func pcSite(pc uintptr) string {
 		return s
 	}
 	fr, _ := runtime.CallersFrames([]uintptr{pc}).Next()
-	f := fr.File
-	// keep "<pkgdir>/<file>:<line>"
-	dir := filepath.Base(filepath.Dir(f))
-	s := fmt.Sprintf("bl:%s/%s:%d", dir, filepath.Base(f), fr.Line)
+	// site = "bl:<package path without the github org>/<file>:<line>", independent of
+	// where the source tree lives on disk.
+	fn := fr.Function
+	pkg := fn
+	if i := strings.LastIndex(fn, "/"); i >= 0 {
+		if j := strings.Index(fn[i:], "."); j >= 0 {
+			pkg = fn[:i+j]
+		}
+	} else if j := strings.Index(fn, "."); j >= 0 {
+		pkg = fn[:j]
+	}
+	pkg = strings.TrimPrefix(pkg, "github.com/aperturerobotics/")
+	s := fmt.Sprintf("bl:%s/%s:%d", pkg, filepath.Base(fr.File), fr.Line)
 	s = strings.ReplaceAll(s, "|", "_")
 	pcNames[pc] = s
 	return s
